@@ -145,11 +145,12 @@ func (cc *CheckCtx) runMono40() {
 		}
 		fr := w.RunFunc("40", "(*CVSS40).Score", RunOpts{ConcreteRet: map[string][]Value{"(CVSS40).macroVector": rv}, NoSafety: true, SkipPost: true, FreshBase: i * 100})
 		if fr.Err != "" {
-			cc.ToolErr = append(cc.ToolErr, key+": "+fr.Err)
+			cc.funcErr("40", "(*CVSS40).Score", fr.Err)
 			return
 		}
 		runs[i] = fr
 	}
+	cc.noteWarn(runs[0])
 	groups := mono40Groups()
 	trans := make([]map[[2]int]bool, len(groups))
 	ntrans := 0
@@ -190,8 +191,8 @@ func (cc *CheckCtx) runMono40() {
 	var insts []CaseInst
 	type pairMeta struct {
 		i, j, g int
-		e, e2 [6]int
-		d, d2 [4]int
+		e, e2   [6]int
+		d, d2   [4]int
 	}
 	metas := map[string]pairMeta{}
 	termMu.Lock()
